@@ -1,0 +1,19 @@
+//go:build verif
+
+package fixedtree
+
+// Exports of the index arithmetic for the verification harness (/verif, property C12).
+
+func VerifIndexHeight(index uint64) uint64 { return indexHeight(index) }
+
+func VerifChildren(size int, index uint64) (c [2]uint64, ok bool) {
+	c, err := children(size, index)
+
+	return c, err == nil
+}
+
+func VerifParent(index uint64) (uint64, bool) {
+	i, err := parent(index)
+
+	return i, err == nil
+}
